@@ -2,6 +2,8 @@
 order is moot (all permutations of insertion orders)."""
 import itertools
 
+import numpy as np
+
 from vmc import framework as fw
 from vmc import sched, worlds
 
@@ -40,6 +42,16 @@ def world(tss, n_steps, script, perm_p, perm_s, rev_ports, rev_state):
         spec['schema']['priv']['last'] = {
             '_default': None, '_updater': 'set', '_emit': True}
         spec['update']['priv']['last'] = '$tokval'
+        # a numpy array under the default (accumulate) updater: every
+        # process adds [1, 1] to the shared array and adds THE ARRAY OBJECT
+        # IT WAS SHOWN to a private one (the update carries the viewed
+        # object itself, as real processes do)
+        spec['schema']['shared']['arr'] = {
+            '_default': np.array([0, 0]), '_emit': True}
+        spec['schema']['priv']['seen'] = {
+            '_default': np.array([0, 0]), '_emit': True}
+        spec['update']['shared']['arr'] = {'$lit': np.array([1, 1])}
+        spec['update']['priv']['seen'] = {'$stateref': ('shared', 'arr')}
         ports = {'priv': (f's{i}',), 'shared': ('shared',)}
         if rev_ports:
             ports = dict(reversed(list(ports.items())))
@@ -101,7 +113,7 @@ def world(tss, n_steps, script, perm_p, perm_s, rev_ports, rev_state):
     topology = {}
     for k in names:
         topology[k] = topo_p.get(k) or topo_s.get(k)
-    state = {'shared': {'num': 0, 'tok': ()}}
+    state = {'shared': {'num': 0, 'tok': (), 'arr': np.array([0, 0])}}
     if layout == 'recruit':
         state['kids'] = {'k0': {'v': 1}}
     for i in range(len(tss)):
@@ -154,7 +166,7 @@ def check_one(spec, ex):
         elif k == 'clock':
             last_proc = None
         elif k == 'snap':
-            _, uid, pid, n, t, snap = ev
+            _, uid, pid, n, t, snap = ev[:6]
             is_step = pid.startswith('st')
             sj = fw.jdump(_norm_snapshot(snap))
             if is_step:
@@ -195,6 +207,34 @@ def check_one(spec, ex):
                       f'see different hierarchy states')
                     return out
             last_proc = (t, sj, idx, True, pid)
+    # the array a process was shown stays what it was: its private 'seen'
+    # holds the sum of the arrays logged at its invocations
+    inv_seen = {}
+    for ev in ex.trace:
+        if ev[0] == 'invoke' and not ev[7] and ev[2].startswith('p'):
+            inv_seen.setdefault(ev[2], {})[ev[3]] = np.array(
+                ev[6]['shared']['arr'])
+    applied = {}
+    for ev in ex.trace:
+        if ev[0] == 'apply':
+            applied.setdefault(ev[1], ev[2])
+    rows = worlds.history_rows(ex)
+    if rows:
+        T, data, snap = rows[-1]
+        for pid, by_n in inv_seen.items():
+            i = int(pid[1:])
+            want = np.array([0, 0])
+            for n, arr in by_n.items():
+                if applied.get((pid, n)) is not None and \
+                        applied[(pid, n)] <= T:
+                    want = want + arr
+            got = np.array(data.get(f's{i}', {}).get('seen'))
+            if got.shape != want.shape or not (got == want).all():
+                V('C04.snapshot', 'view-changed-after-it-was-handed-out',
+                  f'{pid}: private seen = {got.tolist()}, but the arrays it '
+                  f'was shown at its invocations sum to {want.tolist()} '
+                  f'(a later update modified the object in its view)')
+                return out
     # (iii) steps of one generation see identical snapshots in a phase
     phase = {}
     for ev in ex.trace + [('end',)]:
